@@ -1805,6 +1805,136 @@ def special_cases(r):
     return out
 
 
+# ------------------------------------------------------------------------------------------------ two connections in one process
+def cross_connection_phase(ctx):
+    """What ONE connection's configuration allows must not widen what ANOTHER connection's peer can reach.  A process holds a trusted
+    connection (instantiate_custom_exceptions / import_custom_exceptions on: the operator's choice for that peer) over which an
+    application exception class legitimately arrives, and a default-configuration connection to a hostile peer who then names the
+    same class in an exception record (CTXEXIT argument; exception reply to a request of the server's own).  Under the default
+    configuration no code of the application's class may run and the service must see a stand-in, whatever happened on the other
+    connection before (seed C07-r9m1: a module-level cache of resolved classes in vinegar.load)."""
+    import socket, sys, threading, types
+    import rpyc
+    from rpyc.core import consts
+    from rpyc.core.stream import SocketStream
+    log = []
+
+    def make_class(modname, clsname):
+        mod = sys.modules.get(modname) or types.ModuleType(modname)
+
+        def __new__(cls, *a, **k):
+            log.append(("__new__", cls.__name__))
+            return Exception.__new__(cls, *a, **k)
+
+        def _set(self, value):
+            log.append(("setter", value))
+            self.__dict__["_account"] = value
+        cls = type(clsname, (Exception,), {"__new__": __new__, "account": property(lambda self: self.__dict__.get("_account"), _set), "__module__": modname})
+        setattr(mod, clsname, cls)
+        sys.modules[modname] = mod
+        return cls
+
+    def pair(svc_a, cfg_a, svc_b, cfg_b):
+        sa, sb = socket.socketpair()
+        ca = rpyc.connect_stream(SocketStream(sa), svc_a, config=dict(cfg_a, sync_request_timeout=30))
+        cb = rpyc.connect_stream(SocketStream(sb), svc_b, config=dict(cfg_b, sync_request_timeout=30))
+        threading.Thread(target=cb.serve_all, daemon=True).start()
+        return ca, cb
+
+    for k, trusted_cfg in enumerate(({"instantiate_custom_exceptions": True}, {"instantiate_custom_exceptions": True, "import_custom_exceptions": True})):
+        for route in ("ctxexit", "callback-exception"):
+            modname, clsname = "c07_app_errors_%d_%s" % (k, route.replace("-", "_")), "AuditedError"
+            cls = make_class(modname, clsname)
+            del log[:]
+            case = {"trusted_config": trusted_cfg, "route": route, "class": [modname, clsname]}
+            ctx.case(("cross-connection", k, route), sample=case)
+            ctx.count("phase:cross-connection")
+
+            class Backend(rpyc.Service):
+                def exposed_debit(self):
+                    e = cls("insufficient funds")
+                    e.account = "backend-account"
+                    raise e
+            seen = []
+
+            class Guard(object):
+                def __enter__(self):
+                    return self
+
+                def __exit__(self, typ, exc, tb):
+                    seen.append(exc)
+                    return True
+
+            class Public(rpyc.Service):
+                def exposed_guard(self):
+                    return Guard()
+
+                def exposed_ask(self, fn):
+                    try:
+                        fn()
+                    except BaseException as e:      # noqa: whatever the peer's callback "raised" is the observation
+                        seen.append(e)
+                    return None
+            conns = []
+            try:
+                with C.time_limit(60):
+                    to_backend, b2 = pair(rpyc.VoidService, trusted_cfg, Backend, {})
+                    conns += [to_backend, b2]
+                    try:
+                        to_backend.root.debit()
+                        legit = None
+                    except Exception as e:          # noqa
+                        legit = e
+                    if not isinstance(legit, cls):
+                        ctx.tie_broken("harness:cross-connection:setup", "the trusted connection did not rebuild the class: %r" % (legit,))
+                        continue
+                    del log[:]
+                    hostile, served = pair(rpyc.VoidService, {}, Public, {})
+                    conns += [hostile, served]
+                    payload = ((modname, clsname), ("pwn",), (("account", "attacker-chosen"),), "no traceback")
+                    if route == "ctxexit":
+                        guard = hostile.root.guard()
+                        try:
+                            hostile.sync_request(consts.HANDLE_CTXEXIT, guard, payload)
+                        except Exception:           # noqa: how the request is answered is not this phase's subject
+                            pass
+                    else:
+                        # the hostile side lends a callable; when the server calls it, it answers with a forged exception record
+                        orig_send = hostile._send
+
+                        def forging_send(msg, seq, args, _orig=orig_send):
+                            if msg == consts.MSG_EXCEPTION:
+                                args = payload
+                            return _orig(msg, seq, args)
+                        hostile._send = forging_send
+
+                        def cb():
+                            raise ValueError("replaced on the wire by the forged record")
+                        try:
+                            hostile.root.ask(cb)
+                        except Exception:           # noqa
+                            pass
+            except C.Hang:
+                ctx.violation("cross-connection:hang", case, observed="no answer within 60 s", expected="an answer", what="the two-connection scenario did not finish")
+                continue
+            finally:
+                for c in conns:
+                    try:
+                        c.close()
+                    except Exception:               # noqa
+                        pass
+                sys.modules.pop(modname, None)
+            inst = [e for e in seen if isinstance(e, cls)]
+            if log or inst:
+                ctx.violation("custom-exception-class-instantiated-under-default-config:after-another-connection-resolved-it", case,
+                              observed={"code of the class that ran": log[:4], "handed to the service": [type(e).__mro__[1].__name__ for e in inst][:2]},
+                              expected="a GenericException stand-in; no code of the application's class runs for a default-configuration peer",
+                              what="an exception record sent by a peer on a DEFAULT-configuration connection was rebuilt as the application's own class "
+                                   "because another connection of the same process (configured to instantiate custom exceptions) had resolved that class before")
+            elif not seen:
+                ctx.tie_broken("harness:cross-connection:not-reached", "route %s: the service never saw the forged exception" % route)
+
+
 def run(ctx):
     r = ctx.rng
     model = C.Model("hostile")
@@ -1852,6 +1982,7 @@ def run(ctx):
         finish_models(ctx, model, jobs, noise)
     else:
         ctx.tie_broken("runner:hostile", "extracted model not available")
+    cross_connection_phase(ctx)
     # how much of what was generated the model speaks about (see META level_note SCOPE)
     ctx.coverage_extra["model_scope"] = {
         "sessions": len(cases), "messages": ctx.evaluations, "messages_compared_with_model": ctx.model_traces,
